@@ -50,6 +50,36 @@ fn churn<K: Kern<D>, const D: usize>(cx: &mut Ctx, r: &mut Rng, dt: &mut Dt<K, D
     // storage slots), Edit-API flips, repair
     let steps = if mode % 4 == 0 { 0 } else { 2 + r.below(4) };
     let mut removed_pos: Vec<Vec<i64>> = Vec::new();
+    if mode % 2 == 1 {
+        // systematic slot recycling ON THE HULL: vertices in early storage slots that are extreme on some axis are
+        // removed and re-inserted at the same position (fresh uuid): the new hull vertex sits in a re-used slot
+        // (higher version) next to older vertices in later slots
+        let vs: Vec<_> = dt.vertices().map(|(_, v)| *v).collect();
+        let half = vs.len().div_ceil(2);
+        let mut done = 0;
+        for v in vs.iter().take(half) {
+            if done >= 2 || dt.number_of_vertices() <= D + 2 {
+                break;
+            }
+            let c = v.point().coords();
+            let extreme = (0..D).any(|j| vs.iter().all(|w| w.point().coords()[j] >= c[j]) || vs.iter().all(|w| w.point().coords()[j] <= c[j]));
+            let (m, pert, _, _) = cx.tr.coord_proj(c);
+            if !extreme || pert {
+                continue;
+            }
+            if !op_remove(&mut cx.tr, 0, dt, v.uuid()) {
+                break;
+            }
+            if find_vertex(dt, v.uuid()).is_some() {
+                continue; // refused (rolled back)
+            }
+            let nv = VIn::lattice(cx.fresh_uuid(), m, Some(6));
+            if !op_insert(&mut cx.tr, 0, dt, &nv, false) {
+                break;
+            }
+            done += 1;
+        }
+    }
     for _ in 0..steps {
         match r.below(5) {
             0 | 1 => {
@@ -154,7 +184,7 @@ fn queries_case<K: Kern<D>, const D: usize>(cx: &mut Ctx, r: &mut Rng, idx: usiz
     }
     // C11: hull creation, queries, then one mutating op of each kind followed by queries
     let Some(hull) = op_hull_create(&mut cx.tr, 0, &dt) else { return };
-    let hq: Vec<Vec<i64>> = qs.iter().take(if cx.thorough { 120 } else { 40 }).cloned().collect();
+    let hq: Vec<Vec<i64>> = qs.iter().take(if cx.thorough { 160 } else { 90 }).cloned().collect();
     if !op_hull_query_batch(&mut cx.tr, 0, &dt, &hull, &hq, "fresh") {
         return;
     }
